@@ -15,17 +15,20 @@ Open Scope N_scope.
          caller's doing (C13_api_forges_iff: no other public call ever emits a forged frame) —, or
      (b) addressed to a MAC that is in the hunt list at that moment, or
      (c) the write of a spoof loop whose iteration DECIDED that frame under the lock (the loop is "armed":
-         its lookup found the MAC in the hunt list), StopHunt having returned in between.
+         its lookup found the MAC in the hunt list), StopHunt having returned in between; or the write of a
+         spoof reply that a ProcessPacket call decided under the lock and has not written yet (RxReply).
    (c) is real: "in the hunt list at the moment of emission" is refuted by that interleaving.  The property
    text supports the decision-time reading: it forbids forged frames "after" the restoring packet, and (c)
    is bounded — C13_stale_bound: once a MAC is out of the hunt list, at most one forged frame per loop that
-   was armed for it when StopHunt returned can still reach it, for ever (until it is hunted again). *)
+   was armed for it and per ProcessPacket call in flight when StopHunt returned can still reach it, for ever
+   (until it is hunted again). *)
 Theorem C13_confined : forall c evs s e out f,
   cfg_ok c ->
   In (s, e, out) (trace c init_state evs) -> In f out -> forged c f = true ->
   caller_forged c e = true \/
   hunted s (fedst f) = true \/
-  (exists i lp, e = Send i /\ nth_error (loops s) i = Some lp /\ armed_pc c (fedst f) (lpc lp) = true).
+  (exists i lp, e = Send i /\ nth_error (loops s) i = Some lp /\ armed_pc c (fedst f) (lpc lp) = true) \/
+  (exists k, e = RxReply k /\ nth_error (rxq s) k = Some f).
 Proof. exact confined. Qed.
 Print Assumptions C13_confined.
 
@@ -42,9 +45,16 @@ Theorem C13_api_forges_iff : forall c s e f,
 Proof. exact api_forges_iff. Qed.
 Print Assumptions C13_api_forges_iff.
 
+(* the domain of the public send API is ALL arguments: a call with an address that is not IPv4 or a MAC that is
+   not 6 bytes (ApiInvalid: ErrInvalidIP / ErrInvalidMAC since /repo 72c6830) writes nothing and changes nothing *)
+Theorem C13_api_invalid_silent : forall c s, step c s ApiInvalid = (s, []).
+Proof. exact api_invalid_silent. Qed.
+Print Assumptions C13_api_invalid_silent.
+
 (* From ANY state in which m is not hunted, along ANY continuation without a StartHunt of m: the forged frames
-   addressed to m that the handler emits on its own (caller-forged calls not counted), plus the loops still
-   armed for m at the end, never exceed the loops armed for m at the start.  With armed = 0: none at all. *)
+   addressed to m that the handler emits on its own (caller-forged calls not counted), plus what is still armed
+   for m at the end (loops holding a decision, spoof replies in flight), never exceed what was armed for m at
+   the start.  With armed = 0: none at all. *)
 Theorem C13_stale_bound : forall c m evs s,
   cfg_ok c -> hunted s m = false -> none_of (is_start_of m) evs ->
   (forged_total c m (trace c s evs) + armed c m (final c s evs) <= armed c m s)%nat.
@@ -55,13 +65,13 @@ Example C13_run_nonvacuous :
   let c := wit_cfg in
   outputs c init_state
     [StartHunt wit_a1; Lookup 0; Check 0; Send 0;
-     RxArp (mkPkt 1 wit_m1 wit_m1 3232235522 0 3232235531);
+     RxArp (mkPkt 1 wit_m1 wit_m1 3232235522 0 3232235531); RxReply 0;
      Lookup 0; StopHunt wit_m1; Check 0; Send 0;
      Lookup 0; Check 0; Send 0;
      Lookup 0; Check 0; Send 0;
      ApiAnnounceTo wit_m2 3232235531; ApiRequest 3232235522]
   = [[]; []; []; [announce c wit_m1];
-     [mkFrame 2 wit_m1 (host_mac c) (router_ip c) wit_m1 3232235522];
+     []; [mkFrame 2 wit_m1 (host_mac c) (router_ip c) wit_m1 3232235522];
      []; []; []; [announce c wit_m1];
      []; []; [restore c wit_m1];
      []; []; [];
@@ -89,11 +99,26 @@ Print Assumptions C13_start_fresh.
    different from the probed address and the probed address is in the home LAN (and is neither link-local —
    the handler's documented convention — nor the router's own address, which confinement forbids); any other
    packet is answered iff it is a who-has-router request from a hunted MAC, with the spoof reply; a closed
-   handler answers nothing.  (wr2: the frame reaches the wire unless the connection refuses the write.) *)
+   handler answers nothing.  The probe-reject is written at once (wr2: it reaches the wire unless the
+   connection refuses the write); the spoof reply is DECIDED here, under the lock, and written after the
+   unlock by RxReply (C13_rx_reply) — StopHunt, Close and everything else can land in between. *)
 Theorem C13_probe_reject_iff : forall c s p,
-  step c s (RxArp p) = match rx_answer c s p with Some f => wr2 s f | None => (s, []) end.
+  step c s (RxArp p) = match rx_answer c s p with
+                       | RxNone => (s, [])
+                       | RxNow f => wr2 s f
+                       | RxQueue f => (set_rxq s (rxq s ++ [f]), [])
+                       end.
 Proof. exact rx_spec. Qed.
 Print Assumptions C13_probe_reject_iff.
+
+(* the write of a reply in flight: exactly that reply (unless the write is refused), and it leaves the queue *)
+Theorem C13_rx_reply : forall s k,
+  (forall g, In g (snd (rx_reply s k)) -> nth_error (rxq s) k = Some g) /\
+  hunt (fst (rx_reply s k)) = hunt s /\ loops (fst (rx_reply s k)) = loops s /\
+  closed (fst (rx_reply s k)) = closed s /\ offers (fst (rx_reply s k)) = offers s /\
+  rxq (fst (rx_reply s k)) = (match nth_error (rxq s) k with Some _ => remove_nth k (rxq s) | None => rxq s end).
+Proof. exact rx_reply_spec. Qed.
+Print Assumptions C13_rx_reply.
 
 (* raw frames: ProcessPacket never panics, whatever bytes Parse hands over, and a frame that is not a valid
    ARP packet (EtherType 0x0806, >= 28 bytes, header 00 01 08 00 06 04 — decoded here by the spec's own
@@ -152,10 +177,11 @@ Proof. exact done_stays. Qed.
 Print Assumptions C13_dead_loop_silent.
 
 (* ---- Close stops all loops, under every interleaving ----
-   Once closed (any state, any continuation): what the handler still hands to the connection on its own
-   (public API calls of the caller not counted), plus the loops still standing between check and write at the
-   end, never exceeds the loops standing between check and write when Close returned: at most ONE frame per
-   loop, the one already decided.  "Nothing at all after Close" is refuted by that interleaving.  And every
+   Once closed (any state, any continuation): what the handler still hands to the connection on its own —
+   loops, the receive path, AND the steps of a Scan in flight; only the caller's direct send calls are not
+   counted — plus what is still decided-but-unwritten at the end, never exceeds what was decided-but-unwritten
+   when Close returned (pending: loops between check and write, spoof replies in flight, scans that have
+   passed their h.closed test): at most ONE frame per loop / ProcessPacket call / Scan, the one already decided.  "Nothing at all after Close" is refuted by that interleaving.  And every
    loop ends: its next iteration after Close is silent and final (C13_close_ends_loop). *)
 Theorem C13_close_stops : forall c evs s,
   closed s = true -> (own_frames (trace c s evs) + pending (final c s evs) <= pending s)%nat.
